@@ -21,9 +21,36 @@ def diag_c(vals):
     return [[ex.c_of(vals[i]) if i == j else (ex.Z(0), ex.Z(0)) for j in range(n)] for i in range(n)]
 
 
+def structured(mp, rng, n, cplx=False):
+    """dense, upper triangular, block upper triangular (deflates in the middle of the QR iteration), diagonal or sparse"""
+    ent = (lambda: mp.mpc(rng.randint(-9, 9), rng.randint(-9, 9))) if cplx else (lambda: mp.mpf(rng.randint(-9, 9)))
+    A = mp.matrix([[ent() for _ in range(n)] for _ in range(n)])
+    shape = rng.choice(["dense", "dense", "triu", "block", "block", "diag", "sparse"])
+    if shape == "triu":
+        for r in range(n):
+            for c in range(r):
+                A[r, c] = 0
+    elif shape == "block" and n >= 3:
+        k = rng.randint(1, n - 1)                                  # A = [[B, C], [0, D]]
+        for r in range(k, n):
+            for c in range(k):
+                A[r, c] = 0
+    elif shape == "diag":
+        for r in range(n):
+            for c in range(n):
+                if r != c:
+                    A[r, c] = 0
+    elif shape == "sparse":
+        for r in range(n):
+            for c in range(n):
+                if r != c and rng.random() < 0.5:
+                    A[r, c] = 0
+    return A
+
+
 def gen(chk, mpmath, rng):
     mp = mpmath.mp
-    for i in range(chk.pick(90, 3000)):
+    for i in range(chk.pick(140, 3000)):
         p = rng.choice([53, 53, 80, 120])
         mp.prec = p
         n = rng.randint(2, 4)
@@ -50,7 +77,8 @@ def gen(chk, mpmath, rng):
                 js += [ex.le(E[k], E[k + 1]) for k in range(n - 1)]
                 yield ex.allj(*js), {"key": "eig" + ("he" if herm else "sy"), "A": str(A), "p": p, "what": "symmetric/Hermitian eigendecomposition: residual, orthonormality, realness or ordering fails"}
             elif kind < 0.5:
-                A = mp.matrix([[mp.mpf(rng.randint(-9, 9)) for _ in range(n)] for _ in range(n)])
+                n = rng.randint(2, 6)
+                A = structured(mp, rng, n, cplx=rng.random() < 0.3)
                 for d in range(n):
                     A[d, d] += 10 * (d + 1)            # well separated spectrum: moderate eigenvector condition
                 E, ER = mp.eig(A)
@@ -72,7 +100,8 @@ def gen(chk, mpmath, rng):
                 js.append(ex.le(ex.cmaxabs2(OU), ex.mul(ex.pow2(2 * (10 - p)), (m * n) ** 2)))
                 yield ex.allj(*js), {"key": "svd", "A": str(A), "p": p, "what": "SVD: reconstruction, ordering, sign or orthonormality fails"}
             elif kind < 0.85:
-                A = mp.matrix([[mp.mpf(rng.randint(-9, 9)) for _ in range(n)] for _ in range(n)])
+                n = rng.randint(2, 6)
+                A = structured(mp, rng, n, cplx=rng.random() < 0.3)
                 which = rng.choice(["schur", "hessenberg"])
                 Q, T = (mp.schur(A) if which == "schur" else mp.hessenberg(A))
                 Qe, Te, Ae = cmat(Q), cmat(T), cmat(A)
